@@ -51,7 +51,7 @@ def rand_net(rng, fam=None, small=False):
         addr |= ((1 << 9) - 1) << (bits - 9)          # ff... at the top
     elif fam == 6 and r < 0.37:                       # v4-mapped
         addr = (0xFFFF << 32) | rng.getrandbits(32)
-        ones = rng.choice([96, 104, 120, 124, 128, 128, rng.randrange(80, 129)])
+        ones = rng.choice([96, 104, 120, 124, 128, 128, 88, 93, 95, rng.randrange(80, 129)])
     return net(fam, addr, ones, rng)
 
 
@@ -163,7 +163,13 @@ def gen_cases(ctx):
         cases.append({"op": "select", "seed": seed, "cfg": cfg, "lv": lv, "v6": v6, "tag": tag})
 
     # replayed / corpus cases first
-    for d in replay_cases(ctx.replay):
+    import glob
+    import json
+    from lib import VERIF
+    corpus = []
+    for f in sorted(glob.glob(os.path.join(VERIF, "corpus", "C14", "*.json"))):
+        corpus += replay_cases(json.load(open(f)))
+    for d in corpus + replay_cases(ctx.replay):
         if d.get("op") in ("select", "selphantom"):
             cases.append(from_json(d))
 
@@ -175,8 +181,8 @@ def gen_cases(ctx):
         v6 = rng.random() < 0.4
         sel(rand_seed(rng, lv), cfg, lv, v6)
     # unknown generation
-    for lv in range(5):
-        sel(rand_seed(rng, lv), None, lv, bool(lv & 1), "unknown-gen")
+    for lv in list(range(5)) * 2:
+        sel(bytes(rng.getrandbits(8) for _ in range(16)), None, lv, rng.random() < 0.5, "unknown-gen")
     # 2. the candidates of DESIGN section 7 (#11), as fixed regression inputs
     lz4 = {"groups": [{"w": 1, "nets": [net(4, 0x00010200, 24)], "rp": True}]}
     lz6 = {"groups": [{"w": 1, "nets": [net(6, 0x0064FF9B << 96, 96)], "rp": False}]}
@@ -212,6 +218,8 @@ def gen_cases(ctx):
             target = net(fam, base, bits - hb)
             cfg = {"groups": [{"w": 1, "nets": [other, target], "rp": True}]}
             lvs = [2, 4] if hb > 6 else ([1, 2] if quick else [0, 1, 2, 3])
+            if hb == 0:      # the version-0 algorithm can never select a one-address network (its id range is empty)
+                lvs = [lv for lv in lvs if lv != 0]
             for lv in lvs:
                 need = set(range(1 << hb))
                 tries = 0
@@ -235,7 +243,7 @@ def gen_cases(ctx):
             lv = [0, 1, 2, 1, 0, 4][k % 6]
             items.append({"seed": bytes(rng.getrandbits(8) for _ in range(16)), "lv": lv, "v6": bool(k & 1)})
         conc.append({"op": "conc", "cfg": cfg, "items": items, "workers": workers,
-                     "rounds": 40 if quick else 400, "tag": "conc"})
+                     "rounds": 120 if quick else 600, "tag": "conc"})
     return cases, exh, conc
 
 
@@ -322,6 +330,10 @@ def oracle(ctx, c, r):
         ctx.fail("wellformed/%s/len=%d" % (lvc, len(ip)),
                  "selected address has %d bytes (%s), expected %s for the requested family" % (len(ip), r["ip"], want),
                  brief(c))
+        return
+    if r.get("is4") != (len(ip) == 4):
+        ctx.fail("wellformed/%s/v4-mapped" % lvc, "selected %d-byte address %s is an IPv4-mapped value (IP.To4() != nil): "
+                 "net.IP treats it as an IPv4 address" % (len(ip), r["ip"]), brief(c))
         return
     ok = False
     flag = False
